@@ -319,6 +319,9 @@ MV_THEOREMS = {'conf_consts_eq', 'conf_up_eq', 'conf_homo_eq', 'conf_down_eq', '
                'g3c_point_pair_end_points_eq', 'g3c_sphere_center_eq', 'cga_dilation_eq'}
 
 
+LOOP_THEOREMS = {'cre_eq', 'crs_eq', 'gmt_element_eq'}
+
+
 def _tie_a_one(script):
     import re
     p = subprocess.run([sys.executable if sys.executable else 'python3', str(script), '--repo', str(REPO), '--status'],
@@ -348,13 +351,15 @@ def _tie_a_one(script):
 def tie_a(names=None):
     """Tie A: translate code of the *current* source to Lean and check the generated equivalence theorems:
     `translate/py2lean.py` for the loop-free integer code, `translate/mv2lean.py` for the straight-line multivector
-    expressions of the conformal layers. Returns ({theorem: axioms | None}, translator status, log tail)."""
+    expressions of the conformal layers, `translate/loops2lean.py` for the blade-sign loops. Returns ({theorem: axioms | None}, translator status, log tail)."""
     names = set(names or [])
     scripts = []
-    if not names or names - MV_THEOREMS:
+    if not names or names - MV_THEOREMS - LOOP_THEOREMS:
         scripts.append(VERIF / 'translate' / 'py2lean.py')
     if not names or names & MV_THEOREMS:
         scripts.append(VERIF / 'translate' / 'mv2lean.py')
+    if not names or names & LOOP_THEOREMS:
+        scripts.append(VERIF / 'translate' / 'loops2lean.py')
     res, st, log = {}, dict(status={}, theorems={}), ''
     for sc in scripts:
         # what the generated file imports must be compiled first (no-op when it already is)
